@@ -6,12 +6,12 @@
                                            result of the expression evaluator, Python type returned by Session.evaluate
         {k: "str", s: [codes]} | {k: "err", code} | {k: "internal"} | {k: "numbig"} | {k: "other"}
    ty = "?" : observation made through PRINT (value only).
-   TLC recomputes text, value and type from the tree with the operators of Expr.tla and judges.            *)
+   TLC recomputes text, value and type from the tree with the operators of Expr.tla and judges.
+   (That the text parses back to the tree is an invariant of the generator run, Expr_Gen!RoundTrip.)      *)
 EXTENDS Expr, TraceBase
 VARIABLES l, viol
 
 V(e) == IF Render(e.t, e.style) # e.x THEN "text_is_not_the_rendering_of_the_tree"
-        ELSE IF Parse(Toks(e.t, e.style)) # e.t THEN "rendering_does_not_parse_back"
         ELSE Judge(e.t, e.style, e.obs)
 
 INSTANCE OracleTrace WITH Verdict <- V
